@@ -28,7 +28,7 @@ RULE = (
     "result that is neither empty nor everything."
 )
 ASSUMPTIONS = ["reference traversal of C05 and xpath semantics of pbt/xpath_ref.py", "trees are built attached, bottom-up"]
-FLOORS = {"trees:list-children": 0.2, "trees:index>=10": 0.05}
+FLOORS = {"trees:list-children": 0.15, "trees:index>=10": 0.05}
 
 CLASS_NAMES = ["AwareASTNode", *L.CLASS_NAMES]
 FIELD_NAMES = ["req", "opt", "items", "lst", "un", "oseq", "extra", "root", "nosuch", "v"]
@@ -209,6 +209,19 @@ def _check_tree(data: dict, lab: Labels) -> None:
             pass
         except Exception as e:  # noqa: BLE001
             require(False, "legacy-xpath-foreign-exception", f"{text!r}: {type(e).__name__}: {e}")
+
+    # ---- texts the grammar admits but that are extreme (an index of thousands of digits): compiled, or
+    # rejected with the definition error - nothing else
+    for k in data["bad"][:1]:
+        digits = ("7" * [40, 4300, 4301, 9000][k % 4]) if k % 2 else ("0" * [40, 4300, 4301, 9000][k % 4] + "1")
+        text = f"/LInner/@items[{digits}]LLeaf"
+        try:
+            ASTXpath(text)
+        except (ASTXpathDefinitionError, NewErr):
+            pass
+        except Exception as e:  # noqa: BLE001
+            require(False, "legacy-xpath-foreign-exception", f"index of {len(digits)} digits: {type(e).__name__}: {e!s:.80}")
+        lab.tag("huge-index")
 
     # ---- a class name that was unknown when a path was first compiled must be accepted once it exists
     if data.get("late") is not None:
